@@ -221,6 +221,7 @@ mod k3 {
                 let r = DefaultQueryDispatcher.closest_points(&p12, &*g1, &*g2, m);
                 format!("{} {}", fcp(&r), tail_local(&p12, &*g1, &*g2)) }
             // ONE simplex shared by a sequence of `*_with_params` queries (the entry points reset it themselves)
+            "vs3" => exec_vs(a),
             "gjkh3" => { let n = a.u(); let mut simplex = VoronoiSimplex::new(); let mut out = Vec::new();
                 for _ in 0..n {
                     let op = a.tok().to_string();
@@ -243,6 +244,69 @@ mod k3 {
                 out.join(" ") }
             _ => return None,
         })
+    }
+
+    // ---- VoronoiSimplex histories
+    use crate::p3::query::gjk::CSOPoint;
+    fn vs_dump(s: &VoronoiSimplex) -> String {
+        let (dm, pd) = (s.dimension(), s.prev_dimension());
+        let mut t = vec![format!("S {} {}", dm, pd)];
+        for i in 0..=dm { let c = s.point(i); t.push(format!("{} {} {}", d3::fp(&c.point), d3::fp(&c.orig1), d3::fp(&c.orig2))); }
+        for i in 0..=dm.min(3 - 1) { t.push(ff(s.proj_coord(i))); }
+        for i in 0..=pd { t.push(d3::fp(&s.prev_point(i).point)); }
+        for i in 0..=pd.min(3 - 1) { t.push(ff(s.prev_proj_coord(i))); }
+        t.join(" ")
+    }
+    pub fn exec_vs(a: &mut Args) -> String {
+        let n = a.u(); let mut s = VoronoiSimplex::new(); let mut out: Vec<String> = Vec::new();
+        for _ in 0..n {
+            let op = a.tok().to_string();
+            let r = match op.as_str() {
+                "R" => { let o1 = d3::p(a); let o2 = d3::p(a); quiet(|| { s.reset(CSOPoint::new(o1, o2)); vs_dump(&s) }) }
+                "A" => { let o1 = d3::p(a); let o2 = d3::p(a); quiet(|| { let r = s.add_point(CSOPoint::new(o1, o2)); format!("{} {}", b(r), vs_dump(&s)) }) }
+                "P" => quiet(|| { let p = s.project_origin_and_reduce(); format!("{} {}", d3::fp(&p), vs_dump(&s)) }),
+                "C" => { let p = d3::p(a); quiet(|| b(s.contains_point(&p)).to_string()) }
+                k => panic!("bad op {}", k),
+            };
+            match r { Some(t) => out.push(t), None => { out.push("panic".into()); break; } }
+        }
+        out.join(" ")
+    }
+    /// a GJK-like history on one simplex: reset, then add / reduce rounds, `contains_point` probes, resets in the middle
+    /// (also on a simplex of dimension >= 1). The real simplex is run alongside to know when it is full.
+    pub fn gen_vs(r: &mut Rng, lat: bool) -> String {
+        let sc = if lat { 1.0 } else { r.logu(0.05, 20.0) };
+        let c = |r: &mut Rng| if lat { r.lattice(4, 1) } else { r.uniform(-sc, sc) };
+        let mut s = VoronoiSimplex::new();
+        let mut ops: Vec<String> = Vec::new();
+        let nrounds = 3 + r.below(10) as usize;
+        let (o1, o2) = (Point::new(c(r), c(r), c(r)), Point::new(c(r), c(r), c(r)));
+        s.reset(CSOPoint::new(o1, o2)); ops.push(format!("R {} {}", d3::hp(&o1), d3::hp(&o2)));
+        for _ in 0..nrounds {
+            match r.below(8) {
+                0 => { // reset in the middle of a run, whatever the current dimension
+                    let (o1, o2) = (Point::new(c(r), c(r), c(r)), Point::new(c(r), c(r), c(r)));
+                    s.reset(CSOPoint::new(o1, o2)); ops.push(format!("R {} {}", d3::hp(&o1), d3::hp(&o2))); }
+                1 => { // probe: a live vertex (true) or an arbitrary point
+                    let p = if r.bool() { s.point(r.below(s.dimension() as u64 + 1) as usize).point } else { Point::new(c(r), c(r), c(r)) };
+                    ops.push(format!("C {}", d3::hp(&p))); }
+                _ => {
+                    if s.dimension() >= 3 { continue; }
+                    // tie cases: a second copy of a live vertex / the origin itself as CSO point / the mirror image of a vertex
+                    let (o1, o2) = match r.below(10) {
+                        0 => { let q = s.point(0); (q.orig1, q.orig2) }
+                        1 => { let o = Point::new(c(r), c(r), c(r)); (o, o) }
+                        2 => { let q = s.point(0); (q.orig2, q.orig1) }
+                        _ => (Point::new(c(r), c(r), c(r)), Point::new(c(r), c(r), c(r))),
+                    };
+                    let ok = quiet(|| s.add_point(CSOPoint::new(o1, o2)));
+                    ops.push(format!("A {} {}", d3::hp(&o1), d3::hp(&o2)));
+                    if ok.is_none() { break; }
+                    if r.below(6) != 0 { ops.push("P".into()); if quiet(|| s.project_origin_and_reduce()).is_none() { break; } }
+                }
+            }
+        }
+        format!("{} {}", ops.len(), ops.join(" "))
     }
 
     pub fn gen_margin(r: &mut Rng, lat: bool) -> f64 {
@@ -380,6 +444,8 @@ mod k3 {
             }
             v.push(("gjkh3".into(), toks.join(" ")));
         }
+        let nv = if thorough { 6000 } else { 600 };
+        for it in 0..nv { let h = gen_vs(r, it % 2 == 0); v.push(("vs3".into(), h)); }
         }
         // ---- focused streams for the SAT-derived routes: closest_points triangle×cuboid and distance cuboid×cuboid
         let nf = if thorough { 3000 } else { 250 };
@@ -576,6 +642,7 @@ mod k2 {
                 let (g1, g2) = (s1.build(), s2.build());
                 let r = DefaultQueryDispatcher.closest_points(&p12, &*g1, &*g2, m);
                 format!("{} {}", fcp(&r), tail_local(&p12, &*g1, &*g2)) }
+            "vs2" => exec_vs(a),
             "gjkh2" => { let n = a.u(); let mut simplex = VoronoiSimplex::new(); let mut out = Vec::new();
                 for _ in 0..n {
                     let op = a.tok().to_string();
@@ -598,6 +665,69 @@ mod k2 {
                 out.join(" ") }
             _ => return None,
         })
+    }
+
+    // ---- VoronoiSimplex histories
+    use crate::p2::query::gjk::CSOPoint;
+    fn vs_dump(s: &VoronoiSimplex) -> String {
+        let (dm, pd) = (s.dimension(), s.prev_dimension());
+        let mut t = vec![format!("S {} {}", dm, pd)];
+        for i in 0..=dm { let c = s.point(i); t.push(format!("{} {} {}", d2::fp(&c.point), d2::fp(&c.orig1), d2::fp(&c.orig2))); }
+        for i in 0..=dm.min(2 - 1) { t.push(ff(s.proj_coord(i))); }
+        for i in 0..=pd { t.push(d2::fp(&s.prev_point(i).point)); }
+        for i in 0..=pd.min(2 - 1) { t.push(ff(s.prev_proj_coord(i))); }
+        t.join(" ")
+    }
+    pub fn exec_vs(a: &mut Args) -> String {
+        let n = a.u(); let mut s = VoronoiSimplex::new(); let mut out: Vec<String> = Vec::new();
+        for _ in 0..n {
+            let op = a.tok().to_string();
+            let r = match op.as_str() {
+                "R" => { let o1 = d2::p(a); let o2 = d2::p(a); quiet(|| { s.reset(CSOPoint::new(o1, o2)); vs_dump(&s) }) }
+                "A" => { let o1 = d2::p(a); let o2 = d2::p(a); quiet(|| { let r = s.add_point(CSOPoint::new(o1, o2)); format!("{} {}", b(r), vs_dump(&s)) }) }
+                "P" => quiet(|| { let p = s.project_origin_and_reduce(); format!("{} {}", d2::fp(&p), vs_dump(&s)) }),
+                "C" => { let p = d2::p(a); quiet(|| b(s.contains_point(&p)).to_string()) }
+                k => panic!("bad op {}", k),
+            };
+            match r { Some(t) => out.push(t), None => { out.push("panic".into()); break; } }
+        }
+        out.join(" ")
+    }
+    /// a GJK-like history on one simplex: reset, then add / reduce rounds, `contains_point` probes, resets in the middle
+    /// (also on a simplex of dimension >= 1). The real simplex is run alongside to know when it is full.
+    pub fn gen_vs(r: &mut Rng, lat: bool) -> String {
+        let sc = if lat { 1.0 } else { r.logu(0.05, 20.0) };
+        let c = |r: &mut Rng| if lat { r.lattice(4, 1) } else { r.uniform(-sc, sc) };
+        let mut s = VoronoiSimplex::new();
+        let mut ops: Vec<String> = Vec::new();
+        let nrounds = 3 + r.below(10) as usize;
+        let (o1, o2) = (Point::new(c(r), c(r)), Point::new(c(r), c(r)));
+        s.reset(CSOPoint::new(o1, o2)); ops.push(format!("R {} {}", d2::hp(&o1), d2::hp(&o2)));
+        for _ in 0..nrounds {
+            match r.below(8) {
+                0 => { // reset in the middle of a run, whatever the current dimension
+                    let (o1, o2) = (Point::new(c(r), c(r)), Point::new(c(r), c(r)));
+                    s.reset(CSOPoint::new(o1, o2)); ops.push(format!("R {} {}", d2::hp(&o1), d2::hp(&o2))); }
+                1 => { // probe: a live vertex (true) or an arbitrary point
+                    let p = if r.bool() { s.point(r.below(s.dimension() as u64 + 1) as usize).point } else { Point::new(c(r), c(r)) };
+                    ops.push(format!("C {}", d2::hp(&p))); }
+                _ => {
+                    if s.dimension() >= 2 { continue; }
+                    // tie cases: a second copy of a live vertex / the origin itself as CSO point / the mirror image of a vertex
+                    let (o1, o2) = match r.below(10) {
+                        0 => { let q = s.point(0); (q.orig1, q.orig2) }
+                        1 => { let o = Point::new(c(r), c(r)); (o, o) }
+                        2 => { let q = s.point(0); (q.orig2, q.orig1) }
+                        _ => (Point::new(c(r), c(r)), Point::new(c(r), c(r))),
+                    };
+                    let ok = quiet(|| s.add_point(CSOPoint::new(o1, o2)));
+                    ops.push(format!("A {} {}", d2::hp(&o1), d2::hp(&o2)));
+                    if ok.is_none() { break; }
+                    if r.below(6) != 0 { ops.push("P".into()); if quiet(|| s.project_origin_and_reduce()).is_none() { break; } }
+                }
+            }
+        }
+        format!("{} {}", ops.len(), ops.join(" "))
     }
 
     fn push_placed(r: &mut Rng, v: &mut Vec<(String, String)>, k1: &str, k2: &str, lat: bool, mode: usize) {
@@ -651,6 +781,8 @@ mod k2 {
             }
             v.push(("gjkh2".into(), toks.join(" ")));
         }
+        let nv = if thorough { 6000 } else { 600 };
+        for it in 0..nv { let h = gen_vs(r, it % 2 == 0); v.push(("vs2".into(), h)); }
         }
         let n = if thorough { 3000 } else { 300 };
         for it in 0..n {
